@@ -276,7 +276,11 @@ def main(tier, seed):
     struct = structural_cases(tier, rng)
     longs = long_cases(tier, rng)
     jobs = []
-    allc = sorted(set(corpus) | set(struct))
+    from .. import domgen as DG
+    lits = [b"x@" + d for d in DG.literal_domains(tier, rng)]
+    if tier == "quick":
+        lits = lits[seed % 3::3]
+    allc = sorted(set(corpus) | set(struct) | set(lits))
     for name, exe in (("asan", asan), ("asan-extra", asanx)):
         sel = allc if name == "asan" else allc[seed % 3::3]
         for i in range(0, len(sel), 3000):
